@@ -211,13 +211,15 @@ def replay_loading(ctx: Ctx, rule: str) -> None:
             n_raise["empty_name_skipped"] += 1
     other_exits = [x for x in ast.walk(fn.node) if isinstance(x, (ast.Continue, ast.Break, ast.Return))]
     ok = n_raise["missing"] == 1 and n_raise["notests"] == 1 and n_raise["empty_name_skipped"] == 1 and len(other_exits) == 1
-    adds = [s for s in ast.walk(fn.node) if isinstance(s, ast.AugAssign) and ast.unparse(s.target) == "self.previous_results"]
+    from .graphrules import _added_to
+
+    adds = [s for s in ast.walk(fn.node) if isinstance(s, ast.stmt) and _added_to(s, "self.previous_results") is not None]
     ok = ok and len(adds) == 1
     # the collected results only ever grow: every test detail of every listed job is kept
     from ..kinds import attribute_stores, owner_rule
 
     writes = list(attribute_stores(ctx.repo, "previous_results", ("plugins/", "cartgraph/", "intertest_setup.py")))
-    shrinking = [(f, n, how) for f, n, how in writes if not (how == "augassign" or (f is not None and f.name == "__init__"))]
+    shrinking = [(f, n, how) for f, n, how in writes if not (how == "augassign" or how in ("mutator:append", "mutator:extend") or (f is not None and f.name == "__init__"))]
     loop = next((l for l in ast.walk(fn.node) if isinstance(l, ast.For) and ast.unparse(l.iter) == "data['tests']"), None)
     unconditional = loop is not None and any(a is x for a in adds for x in loop.body)
     ctx.record(rule + "k", "OWNER", fref, "previous results are only ever appended (every test result of every replayed job is kept, unconditionally)",
